@@ -1,4 +1,6 @@
 import DclabModel.Lemmas.Writer
+import DclabModel.Lemmas.WriterMeta
+import DclabModel.Lemmas.WriterTable
 /-!
 # C01 — Data written through the writer API is read back exactly
 
@@ -245,5 +247,147 @@ example :
     (read s.f).log "l" = [[1, 2], List.replicate 120 5] ∧
     s.f.evcount = some 3 := by
   decide +kernel
+
+/-! ## tables built from a dict (`Model/WriterTable.lean`, observation O10) -/
+
+/-- **every table cell as written**: for a dict of `ncols` columns of equal length `n`, cell
+`(r, i)` of the stored compound array is entry `r` of column `i` — for every size -/
+theorem table_dict_cells (colvals : List (List Tok)) (n : Nat)
+    (hrect : ∀ c ∈ colvals, c.length = n) (i r : Nat) (hi : i < colvals.length) (hr : r < n) :
+    ((dictRecords colvals).getD r []).getD i fill = (colvals.getD i []).getD r fill :=
+  dictRecords_cell colvals n hrect i r hi hr
+
+/-- every column is read back (flattened) exactly as passed in -/
+theorem table_dict_columns (colvals : List (List Tok)) (n : Nat)
+    (hrect : ∀ c ∈ colvals, c.length = n) (i : Nat) (hi : i < colvals.length) :
+    column (dictRecords colvals) i = colvals.getD i [] :=
+  dictRecords_column colvals n hrect i hi
+
+/-- O10: a dict table has the shape `(len(first column), 1)`, a recarray `(rows,)` -/
+theorem table_shape (c0 : List Tok) (cs recs : List (List Tok)) :
+    tableShape true (dictRecords (c0 :: cs)) = .column1 c0.length ∧
+    tableShape false recs = .flat recs.length := by
+  simp [tableShape, dictRecords]
+
+example : dictRecords [[1, 2, 3], [4, 5, 6]] = [[1, 4], [2, 5], [3, 6]] ∧
+    column (dictRecords [[1, 2, 3], [4, 5, 6]]) 1 = [4, 5, 6] := by decide
+
+/-! ## metadata inside the writer sessions (`Model/WriterMeta.lean`)
+
+`XOp` histories interleave `store_metadata` calls with the calls of `Model/Writer.lean`; `Tbl` is
+the key table of `dclab.definitions` (any table: the theorems do not depend on its content). -/
+section Metadata
+open DclabModel.WriterMeta DclabModel.Meta PyVal
+
+/-- **C01, metadata refinement.** After every history (any interleaving of metadata, feature,
+log and table calls, the three modes, re-opened writers, rejected calls) every attribute of the
+file is what the finite-map specification says: the converted, type-mapped value of the last
+accepted write of that key since the last reset — for `experiment:event count` the number of
+events `__exit__` read off the data. -/
+theorem C01_metadata_roundtrip (cfg : Cfg) (t : Tbl) (ops : List XOp) (K : Key) :
+    (xrun cfg t {} ops).a.get? K = mspecOf cfg t ops K :=
+  xrun_refines cfg t ops {} (fun _ => none) (fun K => attrs_get_nil K) K
+
+/-- metadata calls never disturb the data: `C01_roundtrip` holds verbatim for histories with
+`store_metadata` calls anywhere in between -/
+theorem metadata_calls_leave_data (cfg : Cfg) (hfix : cfg.text = .fixed) (t : Tbl)
+    (ops : List XOp) :
+    read (xrun cfg t {} ops).s.f = specOf (dataOps ops) := by
+  rw [xrun_data]
+  exact C01_roundtrip cfg hfix (dataOps ops)
+
+/-- **last write wins, in the documented type**: a key written by an accepted `store_metadata`
+call and not touched afterwards (no later call writes it, no reset; for the event count no writer
+exit) holds `h5 (conv v)` of the value `v` written last in that call — whatever was stored before,
+in particular a value that compares equal to `v` but has another type. -/
+theorem metadata_last_write_wins (cfg : Cfg) (t : Tbl) (pre post : List XOp) (es : List Entry)
+    (K : Key) (v : PyVal) (ha : admissible t es = true) (hc : allConvert t es = true)
+    (hv : lastWrite es K = some v) (hu : post.all (fun op => !touches K op) = true) :
+    (xrun cfg t {} (pre ++ XOp.store es :: post)).a.get? K
+      = (t.storedValue K.1 K.2 v).toOption := by
+  rw [xrun_append]
+  simp only [xrun]
+  rw [untouched_keeps cfg t K post hu]
+  rw [xstep_refines cfg t _ (fun K => (xrun cfg t {} pre).a.get? K) (.store es) (fun _ => rfl) K]
+  simp only [mspecStep, ha, if_true]
+  rw [specStore_last t es _ hc K, hv]
+
+/-- … and `parse_config` hands the reader that attribute through the key's converter -/
+theorem metadata_read_back (cfg : Cfg) (t : Tbl) (pre post : List XOp) (es : List Entry)
+    (K : Key) (v w : PyVal) (ha : admissible t es = true) (hc : allConvert t es = true)
+    (hv : lastWrite es K = some v) (hu : post.all (fun op => !touches K op) = true)
+    (hw : t.storedValue K.1 K.2 v = .ok w) :
+    readMeta t (xrun cfg t {} (pre ++ XOp.store es :: post)).a K = some (t.convert K.1 K.2 w) := by
+  unfold readMeta
+  rw [metadata_last_write_wins cfg t pre post es K v ha hc hv hu, hw]
+  rfl
+
+/-- **the event count is re-derived on every writer exit** from the stored data (non-empty
+`events` group), whatever metadata were stored before — in this session or an earlier one, in a
+session with or without data calls -/
+theorem event_count_rederived (cfg : Cfg) (t : Tbl) (pre : List XOp) (n : Nat)
+    (hn : exitCount cfg.count (xrun cfg t {} pre).s.f = some n) :
+    (xrun cfg t {} (pre ++ [.w .close])).a.get? kEventCount = some (npI n) ∧
+    (xrun cfg t {} (pre ++ [.w .close])).s.f.evcount = some n := by
+  rw [xrun_append]
+  simp only [xrun, xstep, attrsAfter, hn, step]
+  refine ⟨attrs_get_put_same _ _ _, ?_⟩
+  rw [rectify_evcount, hn]
+
+/-- the reported event count equals the number of stored events: if everything below `events`
+holds `N` events when the writer exits, the attribute is `N` -/
+theorem event_count_reported (cfg : Cfg) (hcnt : cfg.count = .fixed) (t : Tbl) (pre : List XOp)
+    (N : Nat) (hne : topKeys (xrun cfg t {} pre).s.f ≠ [])
+    (hK : ∀ k ∈ (xrun cfg t {} pre).s.f.events.map Prod.fst, k ≠ "contour" ∧ k ≠ "trace")
+    (hE : ∀ k d, lookup k (xrun cfg t {} pre).s.f.events = some d → d.rows.length = N)
+    (hT : ∀ k d, lookup k (xrun cfg t {} pre).s.f.traces = some d → d.rows.length = N)
+    (hC : ∀ g, (xrun cfg t {} pre).s.f.contour = some g → g.length = N) :
+    (xrun cfg t {} (pre ++ [.w .close])).a.get? kEventCount = some (npI N) := by
+  obtain ⟨k, hk⟩ := minKey_some_of_ne_nil _ hne
+  have hx : exitCount cfg.count (xrun cfg t {} pre).s.f
+      = some (objLen .fixed (xrun cfg t {} pre).s.f k) := by
+    simp [exitCount, hk, hcnt]
+  have h1 := event_count_correct _ N hne hK hE hT hC
+  rw [rectify_evcount, ← hcnt, hx] at h1
+  simp only [Option.some.injEq] at h1
+  rw [(event_count_rederived cfg t pre _ hx).1, h1]
+
+/-- a writer opened in reset mode leaves no attribute behind -/
+theorem reset_clears_metadata (cfg : Cfg) (t : Tbl) (pre : List XOp) :
+    (xrun cfg t {} (pre ++ [.w (.openW .reset)])).a = [] := by
+  rw [xrun_append]
+  rfl
+
+/-- a two-row key table for the examples -/
+def tinyTbl : Tbl :=
+  ⟨[⟨sExperiment, kEventCount.2, "fint", "numbers.Integral"⟩,
+    ⟨[113, 112, 105], [115, 99, 97, 108, 101], "fboolorfloat", "bool or float"⟩],
+   [], [sExperiment, [113, 112, 105]], [sExperiment, [113, 112, 105]]⟩
+
+/-- non-vacuity (the class of a stale event count): two events, then a session that stores only
+metadata carrying the event count of another measurement — the exit re-derives 2 -/
+example :
+    (xrun { chunkBytes := 100 } tinyTbl {}
+      [.w (.openW .reset), .store [(sExperiment, kEventCount.2, sc (.int 0))],
+       .w (.feat "deform" true 8 [5, 6]), .w .close,
+       .w (.openW .append), .store [(sExperiment, kEventCount.2, sc (.int 1000000))],
+       .w .close]).a.get? kEventCount = some (sc (.npInt 2)) := by
+  decide +kernel
+
+/-- non-vacuity (equal value, other type): `True`, then `1.0` for a bool-or-float key — the file
+holds the float; an unknown key rejects the whole call -/
+example :
+    let qk : Key := ([113, 112, 105], [115, 99, 97, 108, 101])
+    (xrun { chunkBytes := 100 } tinyTbl {}
+      [.store [(qk.1, qk.2, sc (.bool true))], .w .close, .w (.openW .append),
+       .store [(qk.1, qk.2, sc (.float (.fin 1)))]]).a.get? qk = some (sc (.npFloat (.fin 1))) ∧
+    (xrun { chunkBytes := 100 } tinyTbl {}
+      [.store [(qk.1, qk.2, sc (.float (.fin 1)))], .store [(qk.1, qk.2, sc (.bool true))]]).a.get? qk
+        = some (sc (.npBool true)) ∧
+    (xstep { chunkBytes := 100 } tinyTbl {}
+      (.store [(qk.1, qk.2, sc (.bool true)), (qk.1, [120], sc (.int 1))])).2 = .err := by
+  decide +kernel
+
+end Metadata
 
 end DclabModel.C01
